@@ -1408,6 +1408,8 @@ theorem wstep_keeps_inSync (ca uri : String) (w : World) (m : List File)
         rw [repo_run _ hc]
         simpa [repoProj, RepoStatus.setLastUpdated, RepoStatus.setFailure] using hin
 
+set_option linter.unusedSimpArgs false
+
 /-! ## the view is what the most recent event says (arbitrary histories) -/
 
 theorem lastTouch_cons {β} (cls : Ev → Option β) (e : Ev) (t : List Ev) :
@@ -1477,5 +1479,468 @@ theorem parentProj_exchangeSays (e : Ev) (ca p : String) (o : Option ParentStatu
   | childSuspended ca' c now => simp [parentProj, Ev.parentExchangeSays, Ev.parentAttempt?, Ev.removesParent, Ev.removesCa]
   | childRemove ca' c => simp [parentProj, Ev.parentExchangeSays, Ev.parentAttempt?, Ev.removesParent, Ev.removesCa]
   | restart => simp [parentProj, Ev.parentExchangeSays, Ev.parentAttempt?, Ev.removesParent, Ev.removesCa]
+
+theorem parentProj_successSays (e : Ev) (ca p : String) (o : Option ParentStatus) :
+    (fun (o : Option ParentStatus) => o.bind (·.lastSuccess)) (parentProj e ca p o) = (e.parentSuccessSays ca p).getD ((fun (o : Option ParentStatus) => o.bind (·.lastSuccess)) o) := by
+  cases e with
+  | parentList ca' p' uri ex reply now =>
+    by_cases h : ca' = ca ∧ p' = p
+    all_goals (have h3 : ¬ (ca' = ca ∧ p' = p) → ∀ (q : Prop), ¬ (ca' = ca ∧ p' = p ∧ q) := fun hh q ⟨a, b, _⟩ => hh ⟨a, b⟩)
+    · cases reply with
+      | ok ent => cases o <;> simp [parentProj, Ev.parentSuccessSays, Ev.parentAttempt?, h, ParentStatus.setEntitlements, ParentStatus.setLastUpdated, ParentStatus.setFailure, resultOf]
+      | error err =>
+        cases ex <;> cases o <;> simp [parentProj, Ev.parentSuccessSays, Ev.parentAttempt?, h, ParentStatus.setEntitlements, ParentStatus.setLastUpdated, ParentStatus.setFailure, resultOf, Ev.removesParent, Ev.removesCa]
+    · cases reply with
+      | ok ent => simp [parentProj, Ev.parentSuccessSays, Ev.parentAttempt?, h, h3 h, Ev.removesParent, Ev.removesCa]
+      | error err =>
+        cases ex <;> simp [parentProj, Ev.parentSuccessSays, Ev.parentAttempt?, h, h3 h, Ev.removesParent, Ev.removesCa]
+  | parentRevokes ca' p' uri sent reply now =>
+    by_cases h : ca' = ca ∧ p' = p
+    all_goals (have h3 : ¬ (ca' = ca ∧ p' = p) → ∀ (q : Prop), ¬ (ca' = ca ∧ p' = p ∧ q) := fun hh q ⟨a, b, _⟩ => hh ⟨a, b⟩)
+    · cases reply with
+      | ok u => cases u; cases o <;> simp [parentProj, Ev.parentSuccessSays, Ev.parentAttempt?, h, ParentStatus.setEntitlements, ParentStatus.setLastUpdated, ParentStatus.setFailure, resultOf, Ev.removesParent, Ev.removesCa]
+      | error err => cases o <;> simp [parentProj, Ev.parentSuccessSays, Ev.parentAttempt?, h, ParentStatus.setEntitlements, ParentStatus.setLastUpdated, ParentStatus.setFailure, resultOf, Ev.removesParent, Ev.removesCa]
+    · cases reply with
+      | ok u => cases u; simp [parentProj, Ev.parentSuccessSays, Ev.parentAttempt?, h, h3 h, Ev.removesParent, Ev.removesCa]
+      | error err => simp [parentProj, Ev.parentSuccessSays, Ev.parentAttempt?, h, h3 h, Ev.removesParent, Ev.removesCa]
+  | parentCerts ca' p' uri reply now =>
+    by_cases h : ca' = ca ∧ p' = p
+    all_goals (have h3 : ¬ (ca' = ca ∧ p' = p) → ∀ (q : Prop), ¬ (ca' = ca ∧ p' = p ∧ q) := fun hh q ⟨a, b, _⟩ => hh ⟨a, b⟩)
+    · cases reply with
+      | ok u => cases u; cases o <;> simp [parentProj, Ev.parentSuccessSays, Ev.parentAttempt?, h, ParentStatus.setEntitlements, ParentStatus.setLastUpdated, ParentStatus.setFailure, resultOf, Ev.removesParent, Ev.removesCa]
+      | error err => cases o <;> simp [parentProj, Ev.parentSuccessSays, Ev.parentAttempt?, h, ParentStatus.setEntitlements, ParentStatus.setLastUpdated, ParentStatus.setFailure, resultOf, Ev.removesParent, Ev.removesCa]
+    · cases reply with
+      | ok u => cases u; simp [parentProj, Ev.parentSuccessSays, Ev.parentAttempt?, h, h3 h, Ev.removesParent, Ev.removesCa]
+      | error err => simp [parentProj, Ev.parentSuccessSays, Ev.parentAttempt?, h, h3 h, Ev.removesParent, Ev.removesCa]
+  | parentRemove ca' p' =>
+    by_cases h : ca' = ca ∧ p' = p
+    · simp [parentProj, Ev.parentSuccessSays, Ev.parentAttempt?, Ev.removesParent, h]
+    · have : (decide (ca' = ca) && decide (p' = p)) = false := by
+        simp only [Bool.and_eq_false_iff, decide_eq_false_iff_not]
+        by_cases a : ca' = ca
+        · exact Or.inr (fun b => h ⟨a, b⟩)
+        · exact Or.inl a
+      simp [parentProj, Ev.parentSuccessSays, Ev.parentAttempt?, Ev.removesParent, h, this]
+  | caRemove ca' =>
+    by_cases h : ca' = ca <;> simp [parentProj, Ev.parentSuccessSays, Ev.parentAttempt?, Ev.removesParent, Ev.removesCa, h]
+  | repoList ca' uri reply now => cases reply <;> simp [parentProj, Ev.parentSuccessSays, Ev.parentAttempt?, Ev.removesParent, Ev.removesCa]
+  | repoDelta ca' uri d reply now => cases reply <;> simp [parentProj, Ev.parentSuccessSays, Ev.parentAttempt?, Ev.removesParent, Ev.removesCa]
+  | childRequest ca' c agent outcome now => cases outcome <;> simp [parentProj, Ev.parentSuccessSays, Ev.parentAttempt?, Ev.removesParent, Ev.removesCa]
+  | childSuspended ca' c now => simp [parentProj, Ev.parentSuccessSays, Ev.parentAttempt?, Ev.removesParent, Ev.removesCa]
+  | childRemove ca' c => simp [parentProj, Ev.parentSuccessSays, Ev.parentAttempt?, Ev.removesParent, Ev.removesCa]
+  | restart => simp [parentProj, Ev.parentSuccessSays, Ev.parentAttempt?, Ev.removesParent, Ev.removesCa]
+
+theorem parentProj_entitlementsSay (e : Ev) (ca p : String) (o : Option ParentStatus) :
+    (fun (o : Option ParentStatus) => (o.getD {}).classes) (parentProj e ca p o) = (e.entitlementsSay ca p).getD ((fun (o : Option ParentStatus) => (o.getD {}).classes) o) := by
+  cases e with
+  | parentList ca' p' uri ex reply now =>
+    by_cases h : ca' = ca ∧ p' = p
+    all_goals (have h3 : ¬ (ca' = ca ∧ p' = p) → ∀ (q : Prop), ¬ (ca' = ca ∧ p' = p ∧ q) := fun hh q ⟨a, b, _⟩ => hh ⟨a, b⟩)
+    · cases reply with
+      | ok ent => cases o <;> simp [parentProj, Ev.entitlementsSay, Ev.parentAttempt?, h, ParentStatus.setEntitlements, ParentStatus.setLastUpdated, ParentStatus.setFailure, resultOf]
+      | error err =>
+        cases ex <;> cases o <;> simp [parentProj, Ev.entitlementsSay, Ev.parentAttempt?, h, ParentStatus.setEntitlements, ParentStatus.setLastUpdated, ParentStatus.setFailure, resultOf, Ev.removesParent, Ev.removesCa]
+    · cases reply with
+      | ok ent => simp [parentProj, Ev.entitlementsSay, Ev.parentAttempt?, h, h3 h, Ev.removesParent, Ev.removesCa]
+      | error err =>
+        cases ex <;> simp [parentProj, Ev.entitlementsSay, Ev.parentAttempt?, h, h3 h, Ev.removesParent, Ev.removesCa]
+  | parentRevokes ca' p' uri sent reply now =>
+    by_cases h : ca' = ca ∧ p' = p
+    all_goals (have h3 : ¬ (ca' = ca ∧ p' = p) → ∀ (q : Prop), ¬ (ca' = ca ∧ p' = p ∧ q) := fun hh q ⟨a, b, _⟩ => hh ⟨a, b⟩)
+    · cases reply with
+      | ok u => cases u; cases o <;> simp [parentProj, Ev.entitlementsSay, Ev.parentAttempt?, h, ParentStatus.setEntitlements, ParentStatus.setLastUpdated, ParentStatus.setFailure, resultOf, Ev.removesParent, Ev.removesCa]
+      | error err => cases o <;> simp [parentProj, Ev.entitlementsSay, Ev.parentAttempt?, h, ParentStatus.setEntitlements, ParentStatus.setLastUpdated, ParentStatus.setFailure, resultOf, Ev.removesParent, Ev.removesCa]
+    · cases reply with
+      | ok u => cases u; simp [parentProj, Ev.entitlementsSay, Ev.parentAttempt?, h, h3 h, Ev.removesParent, Ev.removesCa]
+      | error err => simp [parentProj, Ev.entitlementsSay, Ev.parentAttempt?, h, h3 h, Ev.removesParent, Ev.removesCa]
+  | parentCerts ca' p' uri reply now =>
+    by_cases h : ca' = ca ∧ p' = p
+    all_goals (have h3 : ¬ (ca' = ca ∧ p' = p) → ∀ (q : Prop), ¬ (ca' = ca ∧ p' = p ∧ q) := fun hh q ⟨a, b, _⟩ => hh ⟨a, b⟩)
+    · cases reply with
+      | ok u => cases u; cases o <;> simp [parentProj, Ev.entitlementsSay, Ev.parentAttempt?, h, ParentStatus.setEntitlements, ParentStatus.setLastUpdated, ParentStatus.setFailure, resultOf, Ev.removesParent, Ev.removesCa]
+      | error err => cases o <;> simp [parentProj, Ev.entitlementsSay, Ev.parentAttempt?, h, ParentStatus.setEntitlements, ParentStatus.setLastUpdated, ParentStatus.setFailure, resultOf, Ev.removesParent, Ev.removesCa]
+    · cases reply with
+      | ok u => cases u; simp [parentProj, Ev.entitlementsSay, Ev.parentAttempt?, h, h3 h, Ev.removesParent, Ev.removesCa]
+      | error err => simp [parentProj, Ev.entitlementsSay, Ev.parentAttempt?, h, h3 h, Ev.removesParent, Ev.removesCa]
+  | parentRemove ca' p' =>
+    by_cases h : ca' = ca ∧ p' = p
+    · simp [parentProj, Ev.entitlementsSay, Ev.parentAttempt?, Ev.removesParent, h]
+    · have : (decide (ca' = ca) && decide (p' = p)) = false := by
+        simp only [Bool.and_eq_false_iff, decide_eq_false_iff_not]
+        by_cases a : ca' = ca
+        · exact Or.inr (fun b => h ⟨a, b⟩)
+        · exact Or.inl a
+      simp [parentProj, Ev.entitlementsSay, Ev.parentAttempt?, Ev.removesParent, h, this]
+  | caRemove ca' =>
+    by_cases h : ca' = ca <;> simp [parentProj, Ev.entitlementsSay, Ev.parentAttempt?, Ev.removesParent, Ev.removesCa, h]
+  | repoList ca' uri reply now => cases reply <;> simp [parentProj, Ev.entitlementsSay, Ev.parentAttempt?, Ev.removesParent, Ev.removesCa]
+  | repoDelta ca' uri d reply now => cases reply <;> simp [parentProj, Ev.entitlementsSay, Ev.parentAttempt?, Ev.removesParent, Ev.removesCa]
+  | childRequest ca' c agent outcome now => cases outcome <;> simp [parentProj, Ev.entitlementsSay, Ev.parentAttempt?, Ev.removesParent, Ev.removesCa]
+  | childSuspended ca' c now => simp [parentProj, Ev.entitlementsSay, Ev.parentAttempt?, Ev.removesParent, Ev.removesCa]
+  | childRemove ca' c => simp [parentProj, Ev.entitlementsSay, Ev.parentAttempt?, Ev.removesParent, Ev.removesCa]
+  | restart => simp [parentProj, Ev.entitlementsSay, Ev.parentAttempt?, Ev.removesParent, Ev.removesCa]
+
+theorem repoProj_exchangeSays (e : Ev) (ca : String) (r : RepoStatus) :
+    (fun (r : RepoStatus) => r.lastExchange) (repoProj e ca r) = (e.repoExchangeSays ca).getD ((fun (r : RepoStatus) => r.lastExchange) r) := by
+  cases e with
+  | repoList ca' uri reply now =>
+    by_cases h : ca' = ca
+    all_goals (have h3 : ¬ (ca' = ca) → ∀ (q : Prop), ¬ (ca' = ca ∧ q) := fun hh q ⟨a, _⟩ => hh a)
+    · cases reply with
+      | ok u => cases u; simp [repoProj, Ev.repoExchangeSays, Ev.repoAttempt?, h, RepoStatus.setLastUpdated, RepoStatus.setFailure, RepoStatus.updatePublished, resultOf]
+      | error err => simp [repoProj, Ev.repoExchangeSays, Ev.repoAttempt?, h, RepoStatus.setLastUpdated, RepoStatus.setFailure, RepoStatus.updatePublished, resultOf]
+    · cases reply with
+      | ok u => cases u; simp [repoProj, Ev.repoExchangeSays, Ev.repoAttempt?, h, h3 h]
+      | error err => simp [repoProj, Ev.repoExchangeSays, Ev.repoAttempt?, h, h3 h]
+  | repoDelta ca' uri d reply now =>
+    by_cases h : ca' = ca
+    all_goals (have h3 : ¬ (ca' = ca) → ∀ (q : Prop), ¬ (ca' = ca ∧ q) := fun hh q ⟨a, _⟩ => hh a)
+    · cases reply with
+      | ok u => cases u; simp [repoProj, Ev.repoExchangeSays, Ev.repoAttempt?, h, RepoStatus.setLastUpdated, RepoStatus.setFailure, RepoStatus.updatePublished, resultOf]
+      | error err => simp [repoProj, Ev.repoExchangeSays, Ev.repoAttempt?, h, RepoStatus.setLastUpdated, RepoStatus.setFailure, RepoStatus.updatePublished, resultOf]
+    · cases reply with
+      | ok u => cases u; simp [repoProj, Ev.repoExchangeSays, Ev.repoAttempt?, h, h3 h]
+      | error err => simp [repoProj, Ev.repoExchangeSays, Ev.repoAttempt?, h, h3 h]
+  | caRemove ca' =>
+    by_cases h : ca' = ca <;> simp [repoProj, Ev.repoExchangeSays, Ev.repoAttempt?, Ev.removesCa, h]
+  | parentList ca' p' uri ex reply now => cases reply <;> simp [repoProj, Ev.repoExchangeSays, Ev.repoAttempt?, Ev.removesCa]
+  | parentRevokes ca' p' uri sent reply now => cases reply <;> simp [repoProj, Ev.repoExchangeSays, Ev.repoAttempt?, Ev.removesCa]
+  | parentCerts ca' p' uri reply now => cases reply <;> simp [repoProj, Ev.repoExchangeSays, Ev.repoAttempt?, Ev.removesCa]
+  | childRequest ca' c agent outcome now => cases outcome <;> simp [repoProj, Ev.repoExchangeSays, Ev.repoAttempt?, Ev.removesCa]
+  | childSuspended ca' c now => simp [repoProj, Ev.repoExchangeSays, Ev.repoAttempt?, Ev.removesCa]
+  | parentRemove ca' p' => simp [repoProj, Ev.repoExchangeSays, Ev.repoAttempt?, Ev.removesCa]
+  | childRemove ca' c => simp [repoProj, Ev.repoExchangeSays, Ev.repoAttempt?, Ev.removesCa]
+  | restart => simp [repoProj, Ev.repoExchangeSays, Ev.repoAttempt?, Ev.removesCa]
+
+theorem repoProj_successSays (e : Ev) (ca : String) (r : RepoStatus) :
+    (fun (r : RepoStatus) => r.lastSuccess) (repoProj e ca r) = (e.repoSuccessSays ca).getD ((fun (r : RepoStatus) => r.lastSuccess) r) := by
+  cases e with
+  | repoList ca' uri reply now =>
+    by_cases h : ca' = ca
+    all_goals (have h3 : ¬ (ca' = ca) → ∀ (q : Prop), ¬ (ca' = ca ∧ q) := fun hh q ⟨a, _⟩ => hh a)
+    · cases reply with
+      | ok u => cases u; simp [repoProj, Ev.repoSuccessSays, Ev.repoAttempt?, h, RepoStatus.setLastUpdated, RepoStatus.setFailure, RepoStatus.updatePublished, resultOf]
+      | error err => simp [repoProj, Ev.repoSuccessSays, Ev.repoAttempt?, h, RepoStatus.setLastUpdated, RepoStatus.setFailure, RepoStatus.updatePublished, resultOf]
+    · cases reply with
+      | ok u => cases u; simp [repoProj, Ev.repoSuccessSays, Ev.repoAttempt?, h, h3 h]
+      | error err => simp [repoProj, Ev.repoSuccessSays, Ev.repoAttempt?, h, h3 h]
+  | repoDelta ca' uri d reply now =>
+    by_cases h : ca' = ca
+    all_goals (have h3 : ¬ (ca' = ca) → ∀ (q : Prop), ¬ (ca' = ca ∧ q) := fun hh q ⟨a, _⟩ => hh a)
+    · cases reply with
+      | ok u => cases u; simp [repoProj, Ev.repoSuccessSays, Ev.repoAttempt?, h, RepoStatus.setLastUpdated, RepoStatus.setFailure, RepoStatus.updatePublished, resultOf]
+      | error err => simp [repoProj, Ev.repoSuccessSays, Ev.repoAttempt?, h, RepoStatus.setLastUpdated, RepoStatus.setFailure, RepoStatus.updatePublished, resultOf]
+    · cases reply with
+      | ok u => cases u; simp [repoProj, Ev.repoSuccessSays, Ev.repoAttempt?, h, h3 h]
+      | error err => simp [repoProj, Ev.repoSuccessSays, Ev.repoAttempt?, h, h3 h]
+  | caRemove ca' =>
+    by_cases h : ca' = ca <;> simp [repoProj, Ev.repoSuccessSays, Ev.repoAttempt?, Ev.removesCa, h]
+  | parentList ca' p' uri ex reply now => cases reply <;> simp [repoProj, Ev.repoSuccessSays, Ev.repoAttempt?, Ev.removesCa]
+  | parentRevokes ca' p' uri sent reply now => cases reply <;> simp [repoProj, Ev.repoSuccessSays, Ev.repoAttempt?, Ev.removesCa]
+  | parentCerts ca' p' uri reply now => cases reply <;> simp [repoProj, Ev.repoSuccessSays, Ev.repoAttempt?, Ev.removesCa]
+  | childRequest ca' c agent outcome now => cases outcome <;> simp [repoProj, Ev.repoSuccessSays, Ev.repoAttempt?, Ev.removesCa]
+  | childSuspended ca' c now => simp [repoProj, Ev.repoSuccessSays, Ev.repoAttempt?, Ev.removesCa]
+  | parentRemove ca' p' => simp [repoProj, Ev.repoSuccessSays, Ev.repoAttempt?, Ev.removesCa]
+  | childRemove ca' c => simp [repoProj, Ev.repoSuccessSays, Ev.repoAttempt?, Ev.removesCa]
+  | restart => simp [repoProj, Ev.repoSuccessSays, Ev.repoAttempt?, Ev.removesCa]
+
+theorem childProj_exchangeSays (e : Ev) (ca c : String) (o : Option ChildStatus) :
+    (fun (o : Option ChildStatus) => o.bind (·.lastExchange)) (childProj e ca c o) = (e.childExchangeSays ca c).getD ((fun (o : Option ChildStatus) => o.bind (·.lastExchange)) o) := by
+  cases e with
+  | childRequest ca' c' agent outcome now =>
+    by_cases h : ca' = ca ∧ c' = c
+    · cases outcome with
+      | ok u => cases u; cases o <;> simp [childProj, Ev.childExchangeSays, Ev.childAttempt?, h, ChildStatus.setSuccess, ChildStatus.setFailure, ChildStatus.setSuspended, resultOf]
+      | error err => cases o <;> simp [childProj, Ev.childExchangeSays, Ev.childAttempt?, h, ChildStatus.setSuccess, ChildStatus.setFailure, ChildStatus.setSuspended, resultOf]
+    · cases outcome with
+      | ok u => cases u; simp [childProj, Ev.childExchangeSays, Ev.childAttempt?, h, Ev.removesChild, Ev.removesCa]
+      | error err => simp [childProj, Ev.childExchangeSays, Ev.childAttempt?, h, Ev.removesChild, Ev.removesCa]
+  | childSuspended ca' c' now =>
+    by_cases h : ca' = ca ∧ c' = c
+    · cases o <;> simp [childProj, Ev.childExchangeSays, Ev.childAttempt?, h, ChildStatus.setSuccess, ChildStatus.setFailure, ChildStatus.setSuspended, resultOf, Ev.removesChild, Ev.removesCa]
+    · simp [childProj, Ev.childExchangeSays, Ev.childAttempt?, h, Ev.removesChild, Ev.removesCa]
+  | childRemove ca' c' =>
+    by_cases h : ca' = ca ∧ c' = c
+    · simp [childProj, Ev.childExchangeSays, Ev.childAttempt?, Ev.removesChild, h]
+    · have : (decide (ca' = ca) && decide (c' = c)) = false := by
+        simp only [Bool.and_eq_false_iff, decide_eq_false_iff_not]
+        by_cases a : ca' = ca
+        · exact Or.inr (fun b => h ⟨a, b⟩)
+        · exact Or.inl a
+      simp [childProj, Ev.childExchangeSays, Ev.childAttempt?, Ev.removesChild, h, this]
+  | caRemove ca' =>
+    by_cases h : ca' = ca <;> simp [childProj, Ev.childExchangeSays, Ev.childAttempt?, Ev.removesChild, Ev.removesCa, h]
+  | repoList ca' uri reply now => cases reply <;> simp [childProj, Ev.childExchangeSays, Ev.childAttempt?, Ev.removesChild, Ev.removesCa]
+  | repoDelta ca' uri d reply now => cases reply <;> simp [childProj, Ev.childExchangeSays, Ev.childAttempt?, Ev.removesChild, Ev.removesCa]
+  | parentList ca' p' uri ex reply now => cases reply <;> simp [childProj, Ev.childExchangeSays, Ev.childAttempt?, Ev.removesChild, Ev.removesCa]
+  | parentRevokes ca' p' uri sent reply now => cases reply <;> simp [childProj, Ev.childExchangeSays, Ev.childAttempt?, Ev.removesChild, Ev.removesCa]
+  | parentCerts ca' p' uri reply now => cases reply <;> simp [childProj, Ev.childExchangeSays, Ev.childAttempt?, Ev.removesChild, Ev.removesCa]
+  | parentRemove ca' p' => simp [childProj, Ev.childExchangeSays, Ev.childAttempt?, Ev.removesChild, Ev.removesCa]
+  | restart => simp [childProj, Ev.childExchangeSays, Ev.childAttempt?, Ev.removesChild, Ev.removesCa]
+
+theorem childProj_suspendedSays (e : Ev) (ca c : String) (o : Option ChildStatus) :
+    (fun (o : Option ChildStatus) => o.bind (·.suspended)) (childProj e ca c o) = (e.suspendedSays ca c).getD ((fun (o : Option ChildStatus) => o.bind (·.suspended)) o) := by
+  cases e with
+  | childRequest ca' c' agent outcome now =>
+    by_cases h : ca' = ca ∧ c' = c
+    · cases outcome with
+      | ok u => cases u; cases o <;> simp [childProj, Ev.suspendedSays, Ev.childAttempt?, h, ChildStatus.setSuccess, ChildStatus.setFailure, ChildStatus.setSuspended, resultOf]
+      | error err => cases o <;> simp [childProj, Ev.suspendedSays, Ev.childAttempt?, h, ChildStatus.setSuccess, ChildStatus.setFailure, ChildStatus.setSuspended, resultOf]
+    · cases outcome with
+      | ok u => cases u; simp [childProj, Ev.suspendedSays, Ev.childAttempt?, h, Ev.removesChild, Ev.removesCa]
+      | error err => simp [childProj, Ev.suspendedSays, Ev.childAttempt?, h, Ev.removesChild, Ev.removesCa]
+  | childSuspended ca' c' now =>
+    by_cases h : ca' = ca ∧ c' = c
+    · cases o <;> simp [childProj, Ev.suspendedSays, Ev.childAttempt?, h, ChildStatus.setSuccess, ChildStatus.setFailure, ChildStatus.setSuspended, resultOf, Ev.removesChild, Ev.removesCa]
+    · simp [childProj, Ev.suspendedSays, Ev.childAttempt?, h, Ev.removesChild, Ev.removesCa]
+  | childRemove ca' c' =>
+    by_cases h : ca' = ca ∧ c' = c
+    · simp [childProj, Ev.suspendedSays, Ev.childAttempt?, Ev.removesChild, h]
+    · have : (decide (ca' = ca) && decide (c' = c)) = false := by
+        simp only [Bool.and_eq_false_iff, decide_eq_false_iff_not]
+        by_cases a : ca' = ca
+        · exact Or.inr (fun b => h ⟨a, b⟩)
+        · exact Or.inl a
+      simp [childProj, Ev.suspendedSays, Ev.childAttempt?, Ev.removesChild, h, this]
+  | caRemove ca' =>
+    by_cases h : ca' = ca <;> simp [childProj, Ev.suspendedSays, Ev.childAttempt?, Ev.removesChild, Ev.removesCa, h]
+  | repoList ca' uri reply now => cases reply <;> simp [childProj, Ev.suspendedSays, Ev.childAttempt?, Ev.removesChild, Ev.removesCa]
+  | repoDelta ca' uri d reply now => cases reply <;> simp [childProj, Ev.suspendedSays, Ev.childAttempt?, Ev.removesChild, Ev.removesCa]
+  | parentList ca' p' uri ex reply now => cases reply <;> simp [childProj, Ev.suspendedSays, Ev.childAttempt?, Ev.removesChild, Ev.removesCa]
+  | parentRevokes ca' p' uri sent reply now => cases reply <;> simp [childProj, Ev.suspendedSays, Ev.childAttempt?, Ev.removesChild, Ev.removesCa]
+  | parentCerts ca' p' uri reply now => cases reply <;> simp [childProj, Ev.suspendedSays, Ev.childAttempt?, Ev.removesChild, Ev.removesCa]
+  | parentRemove ca' p' => simp [childProj, Ev.suspendedSays, Ev.childAttempt?, Ev.removesChild, Ev.removesCa]
+  | restart => simp [childProj, Ev.suspendedSays, Ev.childAttempt?, Ev.removesChild, Ev.removesCa]
+
+theorem lastTouch_snoc {β} (cls : Ev → Option β) (evs : List Ev) (e : Ev) (d : β) :
+    (lastTouch cls (evs ++ [e])).getD d = (cls e).getD ((lastTouch cls evs).getD d) := by
+  simp only [lastTouch, List.reverse_append, List.reverse_cons, List.reverse_nil, List.nil_append,
+    List.singleton_append, List.findSome?_cons]
+  cases cls e <;> rfl
+
+theorem repoProj_keeps_nodup (e : Ev) (ca : String) (r : RepoStatus)
+    (hr : (r.published.map (·.1)).Nodup) : ((repoProj e ca r).published.map (·.1)).Nodup := by
+  cases e with
+  | repoList ca' uri reply now =>
+    cases reply with
+    | ok u => cases u; simp only [repoProj]; split <;> simpa [RepoStatus.setLastUpdated] using hr
+    | error err => simp only [repoProj]; split <;> simpa [RepoStatus.setFailure] using hr
+  | repoDelta ca' uri d reply now =>
+    cases reply with
+    | ok u =>
+      cases u
+      simp only [repoProj]
+      split
+      · exact nodup_applyDelta r.published d hr
+      · exact hr
+    | error err => simp only [repoProj]; split <;> simpa [RepoStatus.setFailure] using hr
+  | caRemove ca' =>
+    simp only [repoProj]
+    split
+    · exact List.nodup_nil
+    · exact hr
+  | parentList ca' p' uri ex reply now => cases reply <;> exact hr
+  | parentRevokes ca' p' uri sent reply now => cases reply <;> exact hr
+  | parentCerts ca' p' uri reply now => cases reply <;> exact hr
+  | childRequest ca' c agent outcome now => cases outcome <;> exact hr
+  | childSuspended ca' c now => exact hr
+  | parentRemove ca' p' => exact hr
+  | childRemove ca' c => exact hr
+  | restart => exact hr
+
+/-! ## the invariant -/
+
+/-- **The invariant of the status store.**  `s` is the store after history `evs` (any events:
+exchanges with any outcome, removals, re-adding – which is just a new exchange –, restarts):
+cache and storage agree, and every field of every view is what the most recent event concerning
+it says; no URI is listed twice. -/
+structure StatusInv (evs : List Ev) (s : Store) : Prop where
+  consistent : Consistent s
+  parentExchange : ∀ ca p, (s.parent? ca p).bind (·.lastExchange) =
+    (lastTouch (Ev.parentExchangeSays ca p) evs).getD none
+  parentSuccess : ∀ ca p, (s.parent? ca p).bind (·.lastSuccess) =
+    (lastTouch (Ev.parentSuccessSays ca p) evs).getD none
+  entitlements : ∀ ca p, ((s.parent? ca p).getD {}).classes =
+    (lastTouch (Ev.entitlementsSay ca p) evs).getD []
+  repoExchange : ∀ ca, (s.repo ca).lastExchange = (lastTouch (Ev.repoExchangeSays ca) evs).getD none
+  repoSuccess : ∀ ca, (s.repo ca).lastSuccess = (lastTouch (Ev.repoSuccessSays ca) evs).getD none
+  childExchange : ∀ ca c, (s.child? ca c).bind (·.lastExchange) =
+    (lastTouch (Ev.childExchangeSays ca c) evs).getD none
+  suspended : ∀ ca c, (s.child? ca c).bind (·.suspended) =
+    (lastTouch (Ev.suspendedSays ca c) evs).getD none
+  noDuplicates : ∀ ca, ((s.repo ca).published.map (·.1)).Nodup
+
+theorem statusInv_init : StatusInv [] Store.empty where
+  consistent := consistent_empty
+  parentExchange := fun _ _ => rfl
+  parentSuccess := fun _ _ => rfl
+  entitlements := fun _ _ => rfl
+  repoExchange := fun _ => rfl
+  repoSuccess := fun _ => rfl
+  childExchange := fun _ _ => rfl
+  suspended := fun _ _ => rfl
+  noDuplicates := fun _ => List.nodup_nil
+
+/-- Every step preserves the invariant. -/
+theorem statusInv_step (evs : List Ev) (s : Store) (h : StatusInv evs s) (e : Ev) :
+    StatusInv (evs ++ [e]) (step s e) where
+  consistent := consistent_step s h.consistent e
+  parentExchange := fun ca p => by
+    rw [parent?_step s h.consistent, lastTouch_snoc, ← h.parentExchange ca p]
+    exact parentProj_exchangeSays e ca p _
+  parentSuccess := fun ca p => by
+    rw [parent?_step s h.consistent, lastTouch_snoc, ← h.parentSuccess ca p]
+    exact parentProj_successSays e ca p _
+  entitlements := fun ca p => by
+    rw [parent?_step s h.consistent, lastTouch_snoc, ← h.entitlements ca p]
+    exact parentProj_entitlementsSay e ca p _
+  repoExchange := fun ca => by
+    rw [repo_step s h.consistent, lastTouch_snoc, ← h.repoExchange ca]
+    exact repoProj_exchangeSays e ca _
+  repoSuccess := fun ca => by
+    rw [repo_step s h.consistent, lastTouch_snoc, ← h.repoSuccess ca]
+    exact repoProj_successSays e ca _
+  childExchange := fun ca c => by
+    rw [child?_step s h.consistent, lastTouch_snoc, ← h.childExchange ca c]
+    exact childProj_exchangeSays e ca c _
+  suspended := fun ca c => by
+    rw [child?_step s h.consistent, lastTouch_snoc, ← h.suspended ca c]
+    exact childProj_suspendedSays e ca c _
+  noDuplicates := fun ca => by
+    rw [repo_step s h.consistent]
+    exact repoProj_keeps_nodup e ca _ (h.noDuplicates ca)
+
+theorem statusInv_run_from (pre evs : List Ev) (s : Store) (h : StatusInv pre s) :
+    StatusInv (pre ++ evs) (run s evs) := by
+  induction evs generalizing pre s with
+  | nil => simpa [run] using h
+  | cons e t ih =>
+    have := ih (pre ++ [e]) (step s e) (statusInv_step pre s h e)
+    rw [run_cons]
+    simpa [List.append_assoc] using this
+
+theorem statusInv_run (evs : List Ev) : StatusInv evs (run Store.empty evs) := by
+  simpa using statusInv_run_from [] evs Store.empty statusInv_init
+
+/-! ## shadow list covers the server's content, whatever happens to the server -/
+
+theorem covers_applyEl (p m : List File) (el : DeltaEl) (h : Covers p m) :
+    Covers (applyEl p el) (applyEl m el) := by
+  intro u hu
+  rw [entries_applyEl] at hu ⊢
+  rw [entries_applyEl]
+  cases el with
+  | publish v c =>
+    simp only [elEffect] at hu ⊢
+    by_cases hv : v = u
+    · simp [hv]
+    · simp only [hv, if_false] at hu ⊢; exact h u hu
+  | update v c =>
+    simp only [elEffect] at hu ⊢
+    by_cases hv : v = u
+    · simp [hv]
+    · simp only [hv, if_false] at hu ⊢; exact h u hu
+  | withdraw v =>
+    simp only [elEffect] at hu ⊢
+    by_cases hv : v = u
+    · simp [hv] at hu
+    · simp only [hv, if_false] at hu ⊢; exact h u hu
+
+theorem covers_applyDelta (p m : List File) (d : List DeltaEl) (h : Covers p m) :
+    Covers (applyDelta p d) (applyDelta m d) := by
+  induction d generalizing p m with
+  | nil => exact h
+  | cons el t ih => exact ih _ _ (covers_applyEl p m el h)
+
+theorem covers_nil (p : List File) : Covers p [] := by
+  intro u hu; simp [entries] at hu
+
+theorem covers_of_inSync (p m : List File) (h : InSync p m) : Covers p m := fun u _ => h u
+
+theorem coversB_iff (p m : List File) : coversB p m = true ↔ Covers p m := by
+  unfold coversB Covers
+  constructor
+  · intro h u hu
+    simp only [List.all_eq_true, beq_iff_eq] at h
+    have : ∃ f ∈ m, f.1 = u := by
+      cases hm : m.filter (fun e => decide (e.1 = u)) with
+      | nil => simp [entries, hm] at hu
+      | cons f t =>
+        have hf : f ∈ m.filter (fun e => decide (e.1 = u)) := by rw [hm]; exact List.mem_cons_self ..
+        rw [List.mem_filter] at hf
+        exact ⟨f, hf.1, by simpa using hf.2⟩
+    obtain ⟨f, hf, rfl⟩ := this
+    exact h f hf
+  · intro h
+    simp only [List.all_eq_true, beq_iff_eq]
+    intro f hf
+    apply h
+    simp only [entries, ne_eq, List.map_eq_nil_iff, List.filter_eq_nil_iff, decide_eq_true_eq]
+    intro hall
+    exact hall f hf rfl
+
+/-- The world invariant that survives the server losing content. -/
+def WorldCovers (ca : String) (w : World) : Prop :=
+  Consistent w.store ∧ ∀ m, w.server = some m → Covers (w.store.repo ca).published m
+
+theorem wstep_keeps_covers (ca uri : String) (w : World) (h : WorldCovers ca w)
+    (e : WEv) (he : e.foreign ca = false) : WorldCovers ca (wstep ca uri w e) := by
+  obtain ⟨hc, hcov⟩ := h
+  cases e with
+  | publisherRemoved => exact ⟨hc, fun m hm => by simp [wstep] at hm⟩
+  | publisherAdded =>
+    refine ⟨hc, fun m hm => ?_⟩
+    simp only [wstep, Option.some.injEq] at hm
+    cases hs : w.server with
+    | none => rw [hs] at hm; simp at hm; subst hm; exact covers_nil _
+    | some m0 => rw [hs] at hm; simp at hm; subst hm; exact hcov m0 hs
+  | other ev =>
+    simp only [WEv.foreign] at he
+    refine ⟨consistent_step _ hc ev, fun m hm => ?_⟩
+    show Covers ((step w.store ev).repo ca).published m
+    rw [repo_step _ hc, repoProj_of_not_touches ev ca _ he]
+    exact hcov m hm
+  | sync objects now =>
+    cases hs : w.server with
+    | none =>
+      have hw : (wstep ca uri w (.sync objects now)).server = none := by
+        simp only [wstep, hs, repoSyncEvents, if_true]
+        split <;> rfl
+      exact ⟨consistent_run _ hc _, fun m hm => by rw [hw] at hm; cases hm⟩
+    | some m0 =>
+      have hin := hcov m0 hs
+      have hw : wstep ca uri w (.sync objects now) =
+          { store := run w.store
+              (repoSyncEvents ca uri true (some m0) objects "list-refused" "delta-refused" now).1,
+            server := (repoSyncEvents ca uri true (some m0) objects "list-refused" "delta-refused" now).2 } := by
+        simp [wstep, hs]
+      rw [hw]
+      refine ⟨consistent_run _ hc _, ?_⟩
+      simp only [repoSyncEvents]
+      by_cases hd : (diffDelta m0 objects).isEmpty = true
+      · simp only [hd, if_true]
+        intro m hm
+        cases hm
+        rw [repo_run _ hc]
+        simpa [repoProj, RepoStatus.setLastUpdated] using hin
+      · simp only [hd, Bool.false_eq_true, if_false]
+        cases hacc : srvApply m0 (diffDelta m0 objects) with
+        | some m' =>
+          intro m hm
+          simp only [Option.some.injEq] at hm
+          subst hm
+          simp only []
+          rw [repo_run _ hc]
+          simp only [List.foldl_cons, List.foldl_nil, repoProj, if_true,
+            RepoStatus.updatePublished, RepoStatus.setLastUpdated]
+          rw [srvApply_eq m0 m' _ hacc]
+          exact covers_applyDelta _ m0 _ hin
+        | none =>
+          intro m hm
+          simp only [Option.some.injEq] at hm
+          subst hm
+          simp only []
+          rw [repo_run _ hc]
+          simpa [repoProj, RepoStatus.setLastUpdated, RepoStatus.setFailure] using hin
 
 end KM.Status
